@@ -5,6 +5,7 @@ import Csvq.Model.Cast
 import Csvq.Model.ParseFloat
 import Csvq.Model.ParseTime
 import Csvq.Model.FormatFloat
+import Csvq.Model.FormatTime
 namespace Csvq.Drive
 open Csvq Csvq.Proto
 
@@ -106,6 +107,21 @@ def c06 (cmd : String) (args : List String) : String :=
     -- value.Float64ToStr(f, false), Float64ToStr(f, true), strconv.FormatFloat(f, 'e', -1, 64)
     match parseF f with
     | some x => hex (FF.fmtF x) ++ " " ++ hex (FF.fmtG x) ++ " " ++ hex (FF.fmtE x)
+    | none => bad
+  | "tfmt", [sec, nsec, off] =>
+    -- time.Unix(sec, nsec) in a zone whose offset is `off` seconds: Format(time.RFC3339Nano)
+    match sec.toInt?, nsec.toInt?, off.toInt? with
+    | some sec, some nsec, some off => hex (FT.fmtTime (sec * 1000000000 + nsec) off)
+    | _, _, _ => bad
+  | "tback", [sec, nsec, off] =>
+    -- … and value.StrToTime of that text
+    match sec.toInt?, nsec.toInt?, off.toInt? with
+    | some sec, some nsec, some off => showOpt toString (PT.strToTime (FT.fmtTime (sec * 1000000000 + nsec) off))
+    | _, _, _ => bad
+  | "dfmt", [h] =>
+    -- value.ConvertDatetimeFormat of an ASCII format text
+    match parseHexX h with
+    | some b => hex (FT.convertFormat false b)
     | none => bad
   | "prof", [v] =>
     match parseVal v with
